@@ -63,7 +63,28 @@ fn build(_ctx: &Ctx, tier: Tier, seed: u64) -> Vec<Job<'static>> {
         Tier::Quick => 40_000,
         Tier::Thorough => 2_000_000,
     };
-    vec![Job { label: "two real daemons: wild link faults + KeepAlive prompts, suspend/resume at either side, blackouts into limit faults, abandon handlers".into(), n, gen: Box::new(move |i| scenario(seed, i)) }]
+    let j0 = Job { label: "two real daemons: wild link faults + KeepAlive prompts, suspend/resume at either side, blackouts into limit faults, abandon handlers".into(), n, gen: Box::new(move |i| scenario(seed, i)) };
+    // a scripted sender re-segments freely (one PDU spanning several held segments and gaps),
+    // which this implementation's own sender never does
+    let j1 = Job {
+        label: "scripted sender: overlapping / duplicated / re-segmented data with KeepAlive prompts, receiver suspend+resume, then silence into the receiver's limit fault".into(),
+        n: n / 4,
+        gen: Box::new(move |i| {
+            let mut sc = crate::props::c09::rx_history(seed ^ 0x20, i);
+            let mut rng = Rng::new(mix(seed ^ 0xC20B, i as u64));
+            let last = sc.script.iter().filter_map(|e| if let Entry::Inject { at: Trigger::At(t), .. } = e { Some(*t) } else { None }).max().unwrap_or(1000);
+            if rng.chance(1, 2) {
+                let t = rng.range(1000, last.max(2000));
+                sc.script.push(Entry::User { ent: 1, op: UserOp::Suspend, put: RAW_TXN + 7, at: Trigger::At(t) });
+                sc.script.push(Entry::User { ent: 1, op: UserOp::Resume, put: RAW_TXN + 7, at: Trigger::At(t + rng.range(0, 5000)) });
+            }
+            sc.ents[1].t_inact = 2;
+            sc.ents[1].t_nak = 1;
+            sc.horizon_ms = last / 1000 + 20_000;
+            sc
+        }),
+    };
+    vec![j0, j1]
 }
 
 fn held_of<'a>(it: impl Iterator<Item = &'a RecvRef>) -> IntervalSet {
@@ -94,7 +115,26 @@ fn receiver_candidates(recvd: &[RecvRef], seq: u64, vt: u64, not_before: Option<
 pub fn c20(a: &Analysis) -> Vec<Violation> {
     let mut out = vec![];
     for t in a.txns.values() {
-        let Some(pi) = t.put else { continue };
+        let Some(pi) = t.put else {
+            // a transaction driven by a scripted sender: the file size is what its EOF / metadata say
+            if let Some(d) = t.dst_ent {
+                if a.rec.sc.ents[d].real {
+                    let size = t
+                        .at_dst
+                        .recvd
+                        .iter()
+                        .filter_map(|r| match r.pdu.as_ref().and_then(|p| op_of(p)) {
+                            Some(Operations::EoF(e)) => Some(e.file_size),
+                            Some(Operations::Metadata(m)) => Some(m.file_size),
+                            _ => None,
+                        })
+                        .max()
+                        .unwrap_or(u64::MAX);
+                    receiver_side(a, t, size, &mut out);
+                }
+            }
+            continue;
+        };
         let put = &a.rec.sc.puts[pi];
         let size = put.file.as_ref().map(|f| f.size).unwrap_or(0);
         if let Some(d) = t.dst_ent {
